@@ -1,3 +1,4 @@
+mod alloc;
 mod assets;
 mod corrupt;
 mod exec;
@@ -12,6 +13,9 @@ mod stream;
 mod turnstile;
 
 use harness::Tier;
+
+#[global_allocator]
+static GLOBAL: alloc::Counting = alloc::Counting;
 
 fn arg(args: &[String], name: &str) -> Option<String> {
     args.iter()
